@@ -56,7 +56,7 @@ Qed.
    model not tracked by this development's single-segment view, hence a hypothesis here). *)
 Theorem copy_then_equal : forall m f D cap rl a src v fc w' c fx,
   msg_ok m -> hinv D -> 0 <= a -> a mod 8 = 0 -> a + 8 <= zlen D ->
-  wf_ptr m src -> aligned src -> caligned src -> den true m 0 [] src v -> cvdom v = true ->
+  wf_ptr m src -> aligned src -> caligned src -> ctag_ok m src -> den true m 0 [] src v -> cvdom v = true ->
   write_ptr f true (dstw D cap m rl) 0 a InSrc src fc = Ok w' ->
   cfg_strict c = true -> all_fixed fx ->
   exists D' cap' rl' q, w' = dstw D' cap' m rl' /\
@@ -64,8 +64,8 @@ Theorem copy_then_equal : forall m f D cap rl a src v fc w' c fx,
     (msg_ok [D'] -> forall fuel st b st',
        equal_m fuel c fx (mkEC m [] [D'] [] false) st src q = (EOk b, st') -> b = true).
 Proof.
-  intros m f D cap rl a src v fc w' c fx Hm Hi Ha Ham Hab Hwf Hal Hcal D0 Hsd H Hs Hfx.
-  destruct (copy_value_ptr m f D cap rl a src v fc w' Hm Hi Ha Ham Hab Hwf Hal Hcal D0 Hsd H)
+  intros m f D cap rl a src v fc w' c fx Hm Hi Ha Ham Hab Hwf Hal Hcal Hctg D0 Hsd H Hs Hfx.
+  destruct (copy_value_ptr m f D cap rl a src v fc w' Hm Hi Ha Ham Hab Hwf Hal Hcal Hctg D0 Hsd H)
     as (D' & cap' & rl' & -> & Hinv & (dep & rlx & q & rlx' & R & Dq)).
   exists D', cap', rl', q. split; [reflexivity|]. split; [exists dep, rlx, rlx'; exact R|].
   intros Hmd fuel st b st' E.
@@ -75,23 +75,24 @@ Proof.
 Qed.
 
 (* ------------------------------------------------------------------ non-vacuity *)
-(* source: a struct (data word 7) with a byte list "abc", a bit list (3 bits, byte 0xfd) and a child
-   struct (data word 5); destination: a fresh single-segment message (root word allocated).  Every
+(* source: a struct (data word 7) with a byte list "abc", a pointer list holding one struct, a bit
+   list (3 bits, byte 0xfd) and a struct list of two elements; destination: a fresh single-segment message (root word allocated).  Every
    hypothesis of copy_value_ptr holds and the copy succeeds. *)
 Definition msg_cv : segs :=
-  [wbytes [struct_word 0 1 3; 7; list_word 2 2 3; list_word 2 1 3; struct_word 2 1 0; 6513249; 253; 5]].
+  [wbytes [struct_word 0 1 4; 7; list_word 3 2 3; list_word 3 6 1; list_word 4 1 3; list_word 4 7 2;
+           6513249; struct_word 0 1 0; 5; 253; struct_word 2 1 0; 7; 0]].
 Definition root_cv : Ptr :=
   match fst (readPtr true msg_cv 1000000 0 (nth 0 msg_cv []) 0 64) with Ok q => q | _ => nullPtr end.
 
 Example copy_value_nonvacuous :
-  hinv (repeat 0 8%nat) /\ wf_ptr msg_cv root_cv /\ aligned root_cv /\ caligned root_cv /\ p_valid root_cv = true /\
+  hinv (repeat 0 8%nat) /\ wf_ptr msg_cv root_cv /\ aligned root_cv /\ caligned root_cv /\ ctag_ok msg_cv root_cv /\ p_valid root_cv = true /\
   exists v w', den true msg_cv 0 [] root_cv v /\ cvdom v = true /\
                write_ptr 20 true (dstw (repeat 0 8%nat) 1024 msg_cv 1000000) 0 0 InSrc root_cv false = Ok w'.
 Proof.
   split; [split; vm_compute; [reflexivity|discriminate]|].
   split.
   { intros _. vm_compute. repeat split; discriminate. }
-  split; [intros _; reflexivity|]. split; [intros K; discriminate K|]. split; [reflexivity|].
+  split; [intros _; reflexivity|]. split; [intros K; discriminate K|]. split; [intros _ K; discriminate K|]. split; [reflexivity|].
   eexists. eexists. split; [apply (vdec_den 10 1000000); vm_compute; reflexivity|].
   split; vm_compute; reflexivity.
 Qed.
